@@ -163,6 +163,31 @@ pub fn stories(prop: &str) -> Vec<Scenario> {
             ],
         )
     };
+    // println reaps a finished bar without keeping its rows; the bar that became first is dropped
+    // before the next draw
+    let println_reap = |p: &str| {
+        multi(
+            p,
+            113,
+            1,
+            12,
+            0,
+            0,
+            vec![
+                add(0, 0, 0, 0, "{obs}B0a{len}{msg}\nB0b{pos}{msg}"),
+                Op::new("add").n(2).n(1).n(0).n(0).n(0).n(8).s("{obs}").s("").s(""),
+                add(0, 0, 0, 0, "{obs}{len}{msg}"),
+                add(0, 0, 0, 0, "{obs}{len}:{prefix}"),
+                Op::new("finish_using_style").n(2),
+                Op::new("drop").n(0),
+                Op::new("drop").n(1),
+                Op::new("mp_println").s(""),
+                add(0, 0, 0, 0, "{obs}B4{prefix}{prefix}{pos}"),
+                Op::new("drop_all").n(2),
+                Op::new("tick").n(4),
+            ],
+        )
+    };
     match prop {
         "C01" => {
             v.push(f4("C01"));
@@ -184,6 +209,7 @@ pub fn stories(prop: &str) -> Vec<Scenario> {
             ));
         }
         "C02" => {
+            v.push(println_reap("C02"));
             v.push(rm_limited("C02"));
             v.push(f1("C02"));
             v.push(f3("C02"));
@@ -196,6 +222,7 @@ pub fn stories(prop: &str) -> Vec<Scenario> {
             v.push(f4("C03"));
         }
         "C04" => {
+            v.push(println_reap("C04"));
             v.push(rm_limited("C04"));
             v.push(f11("C04"));
             v.push(f1("C04"));
